@@ -238,8 +238,17 @@ namespace Pistache::Http::Experimental
         Lock timeoutsLock;
 
     private:
-        void asyncSendRequestImpl(const RequestEntry& req,
-                                  WriteStatus status = FirstTry);
+        // a request of which the socket has not taken everything yet: the rest goes out when
+        // the descriptor is writable again
+        struct PendingSend
+        {
+            RequestEntry entry;
+            size_t written;
+            bool timerRegistered;
+        };
+        std::unordered_map<Fd, PendingSend> pendingSends;
+
+        void asyncSendRequestImpl(RequestEntry&& req, size_t written = 0, bool timerRegistered = false);
 
         void handleRequestsQueue();
         void handleConnectionQueue();
@@ -315,13 +324,12 @@ namespace Pistache::Http::Experimental
                 }
                 else
                 {
-                    asyncSendRequestImpl(req);
+                    asyncSendRequestImpl(std::move(req));
                 }
             });
     }
 
-    void Transport::asyncSendRequestImpl(const RequestEntry& req,
-                                         WriteStatus status)
+    void Transport::asyncSendRequestImpl(RequestEntry&& req, size_t written, bool timerRegistered)
     {
         const auto& buffer = req.buffer;
         auto conn          = req.connection.lock();
@@ -339,21 +347,31 @@ namespace Pistache::Http::Experimental
 
         auto fd = conn->fd();
 
-        ssize_t totalWritten = 0;
+        auto registerTimer = [&] {
+            if (req.timer && !timerRegistered)
+            {
+                Guard guard(timeoutsLock);
+                timeouts.insert(std::make_pair(req.timer->fd(), conn));
+                req.timer->registerReactor(key(), reactor());
+                timerRegistered = true;
+            }
+        };
+
         for (;;)
         {
-            const char* data           = buffer.data() + totalWritten;
-            const ssize_t len          = buffer.size() - totalWritten;
+            const char* data           = buffer.data() + written;
+            const size_t len           = buffer.size() - written;
             const ssize_t bytesWritten = ::send(fd, data, len, MSG_NOSIGNAL);
             if (bytesWritten < 0)
             {
                 if (errno == EAGAIN || errno == EWOULDBLOCK)
                 {
-                    if (status == FirstTry)
-                    {
-                        throw std::runtime_error("Unimplemented, fix me!");
-                    }
-                    reactor()->modifyFd(key(), fd, NotifyOn::Write, Polling::Mode::Edge);
+                    // The socket takes no more for now (a body larger than its buffer): the rest
+                    // is sent when it is writable again. The time-out runs meanwhile.
+                    registerTimer();
+                    pendingSends.erase(fd);
+                    pendingSends.emplace(fd, PendingSend { std::move(req), written, timerRegistered });
+                    reactor()->modifyFd(key(), fd, NotifyOn::Read | NotifyOn::Write);
                 }
                 else
                 {
@@ -367,16 +385,11 @@ namespace Pistache::Http::Experimental
             }
             else
             {
-                totalWritten += bytesWritten;
-                if (totalWritten == len)
+                written += static_cast<size_t>(bytesWritten);
+                if (written == buffer.size())
                 {
-                    if (req.timer)
-                    {
-                        Guard guard(timeoutsLock);
-                        timeouts.insert(std::make_pair(req.timer->fd(), conn));
-                        req.timer->registerReactor(key(), reactor());
-                    }
-                    req.resolve(totalWritten);
+                    registerTimer();
+                    req.resolve(static_cast<ssize_t>(written));
                     break;
                 }
             }
@@ -392,7 +405,7 @@ namespace Pistache::Http::Experimental
             if (!req)
                 break;
 
-            asyncSendRequestImpl(*req);
+            asyncSendRequestImpl(std::move(*req));
         }
     }
 
@@ -489,7 +502,24 @@ namespace Pistache::Http::Experimental
 
         auto tag      = entry.getTag();
         const auto fd = static_cast<Fd>(tag.value());
-        auto connIt   = connections.find(fd);
+
+        // the rest of a request the socket could not take at once
+        auto pendIt = pendingSends.find(fd);
+        if (pendIt != std::end(pendingSends))
+        {
+            PendingSend pending = std::move(pendIt->second);
+            pendingSends.erase(pendIt);
+            auto conn = pending.entry.connection.lock();
+            // (the connection it was meant for may be gone, its descriptor number reused)
+            if (conn && conn->isConnected() && conn->fd() == fd)
+            {
+                reactor()->modifyFd(key(), fd, NotifyOn::Read);
+                asyncSendRequestImpl(std::move(pending.entry), pending.written, pending.timerRegistered);
+                return;
+            }
+        }
+
+        auto connIt = connections.find(fd);
         if (connIt != std::end(connections))
         {
             auto& connectionEntry = connIt->second;
@@ -512,7 +542,11 @@ namespace Pistache::Http::Experimental
                 // We are connected, we can start reading data now - unless what was waiting
                 // for the connection has already failed on it and given it up
                 if (connections.find(fd) != std::end(connections))
-                    reactor()->modifyFd(key(), fd, NotifyOn::Read);
+                {
+                    // (a request sent from the continuation may be waiting for the socket)
+                    const bool sending = pendingSends.find(fd) != std::end(pendingSends);
+                    reactor()->modifyFd(key(), fd, sending ? NotifyOn::Read | NotifyOn::Write : NotifyOn::Read);
+                }
             }
             else
             {
